@@ -279,7 +279,7 @@ class Gen:
         raise E2Error('operation %s has no hub semantics in the lemma generator' % op)
 
 
-def run_mastdump(repo, verif, jobs):
+def run_mastdump(repo, verif, jobs, tag='jobs'):
     tool = os.path.join(verif, 'tools', 'mastdump')
     work = os.path.join(verif, '.gen', 'mastdump')
     os.makedirs(work, exist_ok=True)
@@ -296,7 +296,7 @@ def run_mastdump(repo, verif, jobs):
     p = subprocess.run(['cargo', 'build', '--offline', '--quiet'], cwd=crate, env=env, stdout=subprocess.PIPE, stderr=subprocess.STDOUT, text=True)
     if p.returncode != 0:
         raise E2Error('mastdump does not build against the current tree: ' + p.stdout[-600:])
-    jf = os.path.join(work, 'jobs.txt')
+    jf = os.path.join(work, '%s.txt' % tag)
     with open(jf, 'w') as f:
         for name, src in jobs:
             f.write('%s\t%s\n' % (name, src.replace('\n', '\\n')))
@@ -319,7 +319,7 @@ def generate(specfile, repo, verif):
     mod = importlib.util.module_from_spec(spec)
     spec.loader.exec_module(mod)
     jobs = [(name, e['src']) for name, e in mod.SPECS.items()]
-    dumped = run_mastdump(repo, verif, jobs)
+    dumped = run_mastdump(repo, verif, jobs, re.sub(r'\W+', '_', specfile))
     out = []
     index = []
     info = []
